@@ -45,5 +45,25 @@ PROPS = {
         "trusted_base": ["Model/Token.lean (hand-written)"],
         "design_ref": "DESIGN.md §4 C16",
     },
+    "C17": {
+        "lean": ["C17"],
+        "required": ["C17.c17_member_free_ordered", "C17.c17_member_free_most", "C17.c17_member_free_random", "C17.c17_zone",
+                     "C17.c17_ordered_first", "C17.c17_most_max", "C17.c17_complete", "C17.c17_caller_list_untouched",
+                     "C17.c17_exhausted_not_chosen", "C17.block_marks", "C17.getOne_choice"],
+        "rule": "random histories on the real SwitchPool (hooked fake clock, fake VPC client): 2-7 vSwitches over 3 zones with free counts incl. 0, "
+                "GetOne with all four policy values (ordered/most/random/empty), zone fallback on/off, candidate lists of 0-6 ids incl. duplicates and unknown ids, "
+                "Block, clock steps around the TTL boundary (ttl-1, ttl, ttl+1), cloud changes/removals, Add. Model predicts choice and caller slice for "
+                "ordered/most/default, validates the observed choice for random. non-trivial = history with at least one selection and one Block; distinct = distinct op sequence.",
+        "technique": "Lean 4 refinement of GetOne to a pure selection over resolved candidates (lookup stability under cache fills) + characterisation lemmas; differential correspondence + Go monitors",
+        "level_text": "Theorems for all candidate lists, zones, free counts, policies and all cache/cloud states: choice is a member with free addresses, in the requested zone unless fallback and no in-zone candidate is eligible, "
+                      "first eligible (ordered), maximal free (most), never an exhausted entry until its TTL passes, caller list unchanged. Tied to pkg/vswitch by differential histories on the real SwitchPool.",
+        "level_note": "Trusted: Lean kernel; Model/VSwitch.lean hand-written. Not modelled: the LRU size bound (100) of the expiring cache, singleflight de-duplication, and concurrent use - calls are atomic steps of the model; "
+                      "data races inside GetOne/Block are runtime behaviour the model cannot exhibit (the harness only checks that handed-out *Switch values never change under the caller). "
+                      "sort.Sort is modelled as a stable insertion sort (true for <= 12 candidates).",
+        "assumptions": ["DescribeVSwitchByID answers with the vSwitch that was asked for", "candidate lists have at most 12 entries (sort stability)",
+                        "free-address counts are non-negative"],
+        "trusted_base": ["Model/VSwitch.lean (hand-written)", "hook pkg/vswitch/zz_verif_export.go (injectable clock)"],
+        "design_ref": "DESIGN.md §4 C17",
+    },
 }
 NOT_APPLICABLE = {}
